@@ -457,6 +457,12 @@ class Origins:
         if isinstance(e, ast.Starred):  # marker of _callers_args: an element of the collection
             return self.elements(f, e.value, d, seen, pos)
         if isinstance(e, ast.IfExp):
+            # `p if p.endswith(".") else p + "."`: in the branch selected by the test the tested string ends with the separator
+            t, neg = (e.test.operand, True) if isinstance(e.test, ast.UnaryOp) and isinstance(e.test.op, ast.Not) else (e.test, False)
+            if not pos and isinstance(t, ast.Call) and isinstance(t.func, ast.Attribute) and t.func.attr == "endswith" and t.args and _const_str(t.args[0]) == ".":
+                hit, miss = (e.orelse, e.body) if neg else (e.body, e.orelse)
+                if norm(hit) == norm(t.func.value):
+                    return [(f, ast.Constant(value="."), "value")] + self.value(f, miss, d, seen, pos)
             return self.value(f, e.body, d, seen, pos) + self.value(f, e.orelse, d, seen, pos)
         if isinstance(e, ast.BoolOp) and isinstance(e.op, ast.Or) and not pos:
             out = []
@@ -842,8 +848,32 @@ def _leaf_status(repo: Repo, g: FuncInfo, e: ast.expr, kind: str, depth: int) ->
             return "bare"
         if isinstance(fn, ast.Attribute) and nm in ("rstrip", "strip", "removesuffix") and e.args and "." in (_const_str(e.args[0]) or ""):
             return "bare"
-        if isinstance(fn, ast.Attribute) and nm == "join":
-            return "bare"  # the last element, not the separator, ends the joined string
+        if isinstance(fn, ast.Attribute) and nm == "join" and len(e.args) == 1:
+            # the last element, not the separator, ends the joined string - unless that element is empty
+            arg = e.args[0]
+            if isinstance(arg, (ast.List, ast.Tuple)) and arg.elts and not isinstance(arg.elts[-1], ast.Starred):
+                last = arg.elts[-1]
+                if _const_str(last) == "":
+                    return "dot" if (_const_str(fn.value) or "").endswith(".") else "unknown"
+                return dot_status(repo, g, last, depth + 1)
+            if isinstance(arg, (ast.GeneratorExp, ast.ListComp)):
+                return dot_status(repo, g, arg.elt, depth + 1)
+            # components of a string, possibly a leading run of them: the joined string ends like that string (or earlier)
+            sliced = False
+            while isinstance(arg, ast.Subscript) and isinstance(arg.slice, ast.Slice):
+                sliced = sliced or arg.slice.upper is not None
+                arg = arg.value
+            outs = set()
+            for g2, x, kind in origins(repo).value(g, arg):
+                while isinstance(x, ast.Subscript) and isinstance(x.slice, ast.Slice):
+                    sliced = sliced or x.slice.upper is not None
+                    x = x.value
+                if kind == "value" and isinstance(x, ast.Call) and _call_name(x) in ("split", "rsplit") and isinstance(x.func, ast.Attribute) and x.args and _const_str(x.args[0]) == ".":
+                    st = dot_status(repo, g2, x.func.value, depth + 1)
+                    outs.add("unknown" if (st == "dot" and sliced) else st)
+                else:
+                    outs.add("unknown")
+            return outs.pop() if len(outs) == 1 else "unknown"
         if isinstance(fn, ast.Attribute) and nm == "format" and _const_str(fn.value) is not None:
             s = _const_str(fn.value)
             return "dot" if s.endswith(".") else ("unknown" if s.endswith("}") else "bare")
@@ -868,12 +898,44 @@ def _leaf_status(repo: Repo, g: FuncInfo, e: ast.expr, kind: str, depth: int) ->
     return "unknown"
 
 
+def _normalised_before(f: FuncInfo, use: ast.Name) -> bool:
+    """`if not x.endswith("."): x = x + "."` (or `x += "."`) precedes the use of x on every path and x is not re-bound after it."""
+    if isinstance(f.node, ast.Lambda):
+        return False
+    x = use.id
+    norm_ifs = []
+    for n in own_nodes(f.node):
+        if isinstance(n, ast.If) and not n.orelse and len(n.body) == 1 and isinstance(n.test, ast.UnaryOp) and isinstance(n.test.op, ast.Not):
+            t = n.test.operand
+            if isinstance(t, ast.Call) and isinstance(t.func, ast.Attribute) and t.func.attr == "endswith" and isinstance(t.func.value, ast.Name) and t.func.value.id == x and t.args and _const_str(t.args[0]) == ".":
+                b = n.body[0]
+                ok = isinstance(b, ast.AugAssign) and isinstance(b.op, ast.Add) and isinstance(b.target, ast.Name) and b.target.id == x and (_const_str(b.value) or "").endswith(".")
+                ok = ok or (isinstance(b, ast.Assign) and len(b.targets) == 1 and isinstance(b.targets[0], ast.Name) and b.targets[0].id == x and ((isinstance(b.value, ast.BinOp) and isinstance(b.value.op, ast.Add) and norm(b.value.left) == x and (_const_str(b.value.right) or "").endswith(".")) or (isinstance(b.value, ast.JoinedStr) and len(b.value.values) == 2 and isinstance(b.value.values[0], ast.FormattedValue) and norm(b.value.values[0].value) == x and (_const_str(b.value.values[1]) or "").endswith("."))))
+                if ok:
+                    norm_ifs.append(n)
+    for n in norm_ifs:
+        blk = parent(n)
+        # the normaliser sits in a block that also (transitively) contains the use, before it; nothing re-binds x afterwards
+        if not any(a is blk for a in ancestors(use)):
+            continue
+        if getattr(n, "end_lineno", 0) >= getattr(use, "lineno", 0):
+            continue
+        later = [m for m in own_nodes(f.node) if isinstance(m, ast.Name) and m.id == x and isinstance(m.ctx, ast.Store) and getattr(m, "lineno", 0) > n.end_lineno]
+        if isinstance(blk, (ast.For, ast.AsyncFor, ast.While)):
+            continue
+        if not later:
+            return True
+    return False
+
+
 def dot_status(repo: Repo, f: FuncInfo, e: ast.expr, depth: int = 0) -> str:
     """'dot'  - the string provably ends with '.' (every origin does),
     'bare' - it provably is a plain module name (no origin has a separator appended),
     'unknown' otherwise (origins disagree or cannot be followed)."""
     if depth > 6:
         return "unknown"
+    if isinstance(e, ast.Name) and _normalised_before(f, e):
+        return "dot"
     leaves = origins(repo).value(f, e)
     if not leaves:
         return "unknown"
@@ -933,6 +995,8 @@ def local_defs(repo: Repo, f: FuncInfo) -> dict[str, ast.expr]:
             v = n.targets[0].id
             if stores.get(v) == 1 and v not in f.param_names:
                 out[v] = n.value
+        if isinstance(n, ast.NamedExpr) and isinstance(n.target, ast.Name) and stores.get(n.target.id) == 1 and n.target.id not in f.param_names:
+            out[n.target.id] = n.value
         tgt_it = None
         if isinstance(n, (ast.For, ast.AsyncFor)):
             tgt_it = (n.target, n.iter)
@@ -1251,7 +1315,8 @@ def _found_guard(repo: Repo, f: FuncInfo, node: ast.AST, hay: str, index_texts: 
                 pos.append(mk(a))
                 continue
             for x, y, flip in ((l, r, False), (r, l, True)):
-                if norm(x) in index_texts and isinstance(y, (ast.Constant, ast.UnaryOp)):
+                xs = {norm(x)} | ({norm(x.target), norm(x.value)} if isinstance(x, ast.NamedExpr) else set())
+                if xs & index_texts and isinstance(y, (ast.Constant, ast.UnaryOp)):
                     try:
                         k = ast.literal_eval(y)
                     except Exception:  # noqa: BLE001
@@ -1307,55 +1372,125 @@ def _index_cut(repo: Repo, f: FuncInfo, node: ast.Subscript, bound: ast.expr, is
         lb = _loop_binding(f, core.id)
         if lb is not None:
             tgt, it, owner = lb
-            char_var = None
-            positions = False
-            if isinstance(it, ast.Call) and _call_name(it) == "enumerate" and it.args and norm(it.args[0]) == hay and isinstance(tgt, ast.Tuple) and len(tgt.elts) == 2 and isinstance(tgt.elts[0], ast.Name) and tgt.elts[0].id == core.id:
-                positions = True
-                if isinstance(tgt.elts[1], ast.Name):
-                    char_var = tgt.elts[1].id
-            elif isinstance(it, ast.Call) and _call_name(it) == "range" and any(isinstance(c, ast.Call) and _call_name(c) == "len" and c.args and norm(c.args[0]) == hay for a in it.args for c in ast.walk(a)) and isinstance(tgt, ast.Name):
-                positions = True
-            if positions:
-                from core.guards import atom as mk, atoms_of, f_or, implies
-
-                from .common import guard_formula
-
-                facts = guard_formula(f, node)
-                good = []
-                for a in atoms_of(facts):
-                    e = _parse_atom(a)
-                    if isinstance(e, ast.Compare) and len(e.ops) == 1 and isinstance(e.ops[0], ast.Eq):
-                        sides = {norm(e.left), norm(e.comparators[0])}
-                        if ("'.'" in sides or '"."' in sides) and (sides & ({char_var} if char_var else set()) or f"{hay}[{core.id}]" in sides):
-                            good.append(mk(a))
-                if good and off in (0, 1) and implies(facts, f_or(good)):
-                    return "safe", "cut at a character position that holds the separator"
-                return "unsafe", f"`{norm(node, 60)}`: every character position of the name is a cut point (no test that the position holds '.')"
+            v = _positions_of(repo, f, node, core.id, tgt, it, hay, off, depth=0)
+            if v is not None:
+                return v
+    if isinstance(core, ast.Call) and isinstance(core.func, ast.Attribute) and core.func.attr in ("start", "end") and not core.args and isinstance(core.func.value, ast.Name) and off == 0:
+        lb = _loop_binding(f, core.func.value.id)
+        src = lb[1] if lb is not None and isinstance(lb[0], ast.Name) else local_defs(repo, f).get(core.func.value.id)
+        if isinstance(src, ast.Call) and (repo.resolve_name(f.module, src.func) or "") in ("re.finditer", "re.search", "re.match") and len(src.args) >= 2 and norm(src.args[1]) == hay:
+            pat = _const_str(src.args[0])
+            if pat in ("\\.", "[.]"):
+                if core.func.attr == "start" or not is_upper:
+                    return "safe", "cut at a position where the regular expression '\\.' matched the separator"
     return "unknown", f"`{norm(node, 60)}`: cannot establish that the index `{norm(bound, 30)}` is the position of a separator"
 
 
-def _len_bound(repo: Repo, f: FuncInfo, b: ast.expr | None) -> ast.Call | None:
-    """The len(..) call a slice bound is computed from (directly or through a single-assignment local)."""
-    if b is None:
-        return None
-    for c in ast.walk(b):
-        if isinstance(c, ast.Call) and isinstance(c.func, ast.Name) and c.func.id == "len":
-            return c
-    core, off = _strip_offset(b)
-    if isinstance(core, ast.Name):
-        d = local_defs(repo, f).get(core.id)
-        if d is not None:
-            for c in ast.walk(d):
-                if isinstance(c, ast.Call) and isinstance(c.func, ast.Name) and c.func.id == "len":
-                    return c
+def _positions_of(repo: Repo, f: FuncInfo, node: ast.AST, var: str, tgt: ast.expr, it: ast.expr, hay: str, off: int, depth: int) -> tuple[str, str] | None:
+    """`var` ranges over character positions of `hay` (enumerate / range(len)) - safe iff a test that the position holds '.'
+    guards `node` (or guarded the collection of the positions)."""
+    from core.guards import atom as mk, atoms_of, f_or, implies
+
+    from .common import guard_formula
+
+    char_var = None
+    positions = False
+    if isinstance(it, ast.Call) and _call_name(it) == "enumerate" and it.args and norm(it.args[0]) == hay and isinstance(tgt, ast.Tuple) and len(tgt.elts) == 2 and isinstance(tgt.elts[0], ast.Name) and tgt.elts[0].id == var:
+        positions = True
+        if isinstance(tgt.elts[1], ast.Name):
+            char_var = tgt.elts[1].id
+    elif isinstance(it, ast.Call) and _call_name(it) == "range" and any(isinstance(c, ast.Call) and _call_name(c) == "len" and c.args and norm(c.args[0]) == hay for a in it.args for c in ast.walk(a)) and isinstance(tgt, ast.Name):
+        positions = True
+    if positions:
+        facts = guard_formula(f, node)
+        good = []
+        for a in atoms_of(facts):
+            e = _parse_atom(a)
+            if isinstance(e, ast.Compare) and len(e.ops) == 1 and isinstance(e.ops[0], ast.Eq):
+                sides = {norm(e.left), norm(e.comparators[0])}
+                if "'.'" in sides and (sides & ({char_var} if char_var else set()) or f"{hay}[{var}]" in sides):
+                    good.append(mk(a))
+        try:
+            if good and off in (0, 1) and implies(facts, f_or(good)):
+                return "safe", "cut at a character position that holds the separator"
+        except AnalysisError:
+            return None
+        return "unsafe", f"`{norm(node, 60)}`: every character position of the name is a cut point (no test that the position holds '.')"
+    # positions collected first: `dots = [i for i, c in enumerate(name) if c == "."]` ... `for p in dots: name[:p]`
+    if depth == 0 and isinstance(tgt, ast.Name) and isinstance(it, ast.Name):
+        d = local_defs(repo, f).get(it.id)
+        if isinstance(d, (ast.ListComp, ast.GeneratorExp, ast.SetComp)) and len(d.generators) == 1 and isinstance(d.elt, ast.Name):
+            g = d.generators[0]
+            v = _positions_of(repo, f, d.elt, d.elt.id, g.target, g.iter, hay, off, depth=1)
+            if v is not None:
+                return (v[0], v[1] if v[0] == "safe" else f"`{norm(node, 60)}`: the positions in `{it.id}` are not tested to hold '.'")
     return None
 
 
-def _slice_by_len(repo: Repo, f: FuncInfo, n: ast.Subscript, other_e: ast.expr, boundary_funcs: set[str], depth: int = 0) -> tuple[str, str]:
+def _len_calls(repo: Repo, f: FuncInfo, b: ast.expr | None) -> list[ast.Call]:
+    """The len(..) calls a slice bound is computed from (directly or through a single-assignment local)."""
+    if b is None:
+        return []
+    out = [c for c in ast.walk(b) if isinstance(c, ast.Call) and isinstance(c.func, ast.Name) and c.func.id == "len" and c.args]
+    for x in ast.walk(b):
+        if isinstance(x, ast.Name):
+            d = local_defs(repo, f).get(x.id)
+            if d is not None and not isinstance(d, (ast.ListComp, ast.GeneratorExp, ast.SetComp, ast.DictComp)):
+                out += [c for c in ast.walk(d) if isinstance(c, ast.Call) and isinstance(c.func, ast.Name) and c.func.id == "len" and c.args]
+    return out
+
+
+def _len_bound(repo: Repo, f: FuncInfo, b: ast.expr | None, hay: str = "") -> ast.Call | None:
+    """The len(other) call a slice bound is computed from; lengths of the sliced string itself do not count."""
+    return next((c for c in _len_calls(repo, f, b) if norm(c.args[0]) != hay), None)
+
+
+def _slice_as_prefix_test(repo: Repo, f: FuncInfo, n: ast.Subscript) -> tuple[str, str] | None:
+    """`name[:len(p)] == p` is `name.startswith(p)`, `name[:len(o) + 1] == o + "."` is `name.startswith(o + ".")`,
+    `name[-len(s):] == s` is `name.endswith(s)`: classified like the method."""
+    cmp_ = parent(n)
+    if not (isinstance(cmp_, ast.Compare) and len(cmp_.ops) == 1 and isinstance(cmp_.ops[0], (ast.Eq, ast.NotEq))):
+        return None
+    other_side = cmp_.comparators[0] if cmp_.left is n else cmp_.left
+    if other_side is n:
+        return None
+    lo, hi = n.slice.lower, n.slice.upper
+    side = _expand(repo, f, other_side)
+    if lo is None and hi is not None:
+        core, off = _strip_offset(hi)
+        if isinstance(core, ast.Name):
+            d = local_defs(repo, f).get(core.id)
+            if d is not None:
+                c2, o2 = _strip_offset(d)
+                if off is not None and o2 is not None:
+                    core, off = c2, off + o2
+        if isinstance(core, ast.Call) and _call_name(core) == "len" and core.args and off is not None:
+            p_ = core.args[0]
+            if off == 0 and norm(p_) in (norm(other_side), norm(side)):
+                st = needle_status(repo, f, other_side)
+                if st == "dot":
+                    return "safe", "prefix compared by slicing; the prefix ends in '.'"
+                if st == "bare":
+                    return "unsafe", f"`{norm(cmp_, 80)}`: raw string prefix test (by slicing) on a module name - 'pkg.ab' counts as part of 'pkg.a'"
+                return None
+            if off == 1 and _is_dotted_form(side, {norm(p_)}):
+                return "safe", "prefix plus separator compared by slicing (whole dotted components)"
+    if hi is None and isinstance(lo, ast.UnaryOp) and isinstance(lo.op, ast.USub):
+        core = lo.operand
+        if isinstance(core, ast.Call) and _call_name(core) == "len" and core.args and norm(core.args[0]) in (norm(other_side), norm(side)):
+            if _starts_with_dot(side):
+                return "safe", "suffix compared by slicing; it starts at a '.' boundary"
+            return "unsafe", f"`{norm(cmp_, 80)}`: raw string suffix test (by slicing) on a module name"
+    return None
+
+
+def _slice_by_len(repo: Repo, f: FuncInfo, n: ast.AST, other_e: ast.expr, boundary_funcs: set[str], depth: int = 0, hay_e: ast.expr | None = None) -> tuple[str, str]:
+    """Verdict for removing the first len(other) characters of the name `hay` at node `n` (`hay[len(other):]`, `hay.removeprefix(other)`)."""
     from core.guards import f_or, implies
 
+    hay_e = hay_e if hay_e is not None else n.value
     other = norm(other_e)
-    hay = norm(n.value)
+    hay = norm(hay_e)
     facts, others = _site_facts(repo, f, n, other)
     safe_a, raw_a = _relation_atoms(repo, f, facts, hay, others)
     try:
@@ -1370,8 +1505,8 @@ def _slice_by_len(repo: Repo, f: FuncInfo, n: ast.Subscript, other_e: ast.expr, 
     except AnalysisError:
         pass
     # the relation may have been established by the callers of a small helper: `label = alias + _rest(name, ancestor)`
-    if depth < 2 and not isinstance(f.node, ast.Lambda) and isinstance(n.value, ast.Name) and isinstance(other_e, ast.Name) and n.value.id in f.param_names and other_e.id in f.param_names:
-        ha, oa = _callers_args(repo, f, n.value.id), _callers_args(repo, f, other_e.id)
+    if depth < 2 and not isinstance(f.node, ast.Lambda) and isinstance(hay_e, ast.Name) and isinstance(other_e, ast.Name) and hay_e.id in f.param_names and other_e.id in f.param_names:
+        ha, oa = _callers_args(repo, f, hay_e.id), _callers_args(repo, f, other_e.id)
         if ha and oa and len(ha) == len(oa):
             verdicts = []
             for (g, h_expr), (g2, o_expr) in zip(ha, oa):
@@ -1382,8 +1517,6 @@ def _slice_by_len(repo: Repo, f: FuncInfo, n: ast.Subscript, other_e: ast.expr, 
                 if call is None:
                     verdicts.append("unknown")
                     continue
-                pseudo = ast.Subscript(value=h_expr, slice=ast.Slice(lower=ast.Call(func=ast.Name(id="len", ctx=ast.Load()), args=[o_expr], keywords=[]), upper=None, step=None), ctx=ast.Load())
-                pseudo._site = call  # type: ignore[attr-defined]
                 v, _w = _slice_by_len_at(repo, g, call, h_expr, o_expr, boundary_funcs, depth + 1)
                 verdicts.append(v)
             if verdicts and all(v == "safe" for v in verdicts):
@@ -1427,6 +1560,40 @@ def _zip_in_all(call: ast.Call) -> bool:
     return isinstance(outer, ast.Call) and _call_name(outer) == "all" and isinstance(comp.elt, ast.Compare) and all(isinstance(o, ast.Eq) for o in comp.elt.ops)
 
 
+def _char_prefix_sites(repo: Repo, f: FuncInfo, loop: ast.For, char: str, it: ast.expr) -> list[Site]:
+    """A loop over the characters of a name that accumulates them (`acc.append(c)`, `acc += c`) emits prefixes of the name:
+    every use of the accumulator inside the loop must be guarded by `c == "."`."""
+    from core.guards import atom as mk, atoms_of, f_or, implies
+
+    from .common import guard_formula
+
+    accs: dict[str, list[ast.AST]] = {}
+    body_nodes = [x for st in loop.body for x in ast.walk(st)]
+    for x in body_nodes:
+        if isinstance(x, ast.Call) and isinstance(x.func, ast.Attribute) and x.func.attr == "append" and isinstance(x.func.value, ast.Name) and len(x.args) == 1 and isinstance(x.args[0], ast.Name) and x.args[0].id == char:
+            accs.setdefault(x.func.value.id, []).append(x)
+        if isinstance(x, ast.AugAssign) and isinstance(x.op, ast.Add) and isinstance(x.target, ast.Name) and any(isinstance(y, ast.Name) and y.id == char for y in ast.walk(x.value)):
+            accs.setdefault(x.target.id, []).append(x)
+    out: list[Site] = []
+    for acc, stmts in accs.items():
+        own = {id(y) for st_ in stmts for y in ast.walk(st_)}
+        for x in body_nodes:
+            if isinstance(x, ast.Name) and x.id == acc and isinstance(x.ctx, ast.Load) and id(x) not in own:
+                facts = guard_formula(f, x)
+                good = []
+                for a in atoms_of(facts):
+                    e = _parse_atom(a)
+                    if isinstance(e, ast.Compare) and len(e.ops) == 1 and isinstance(e.ops[0], ast.Eq) and {norm(e.left), norm(e.comparators[0])} == {char, "'.'"}:
+                        good.append(mk(a))
+                try:
+                    ok = bool(good) and implies(facts, f_or(good))
+                except AnalysisError:
+                    ok = False
+                use = stmt_of(x)
+                out.append(Site(f, use if use is not None else x, "char-prefix", it, x, True, "safe" if ok else "unsafe", "the accumulated characters are used only where the current character is the separator" if ok else f"`{norm(use, 60)}`: the characters accumulated so far (a raw string prefix of the name) are used at a position that is not tested to hold '.'", "separator"))
+    return out
+
+
 def scan(repo: Repo) -> list[Site]:
     key = ("name_sites", id(repo))
     if key not in _cache:
@@ -1452,6 +1619,8 @@ def _scan(repo: Repo) -> list[Site]:
                 s = _is_str(T, f, hay)
                 if s is False:
                     continue
+                if s is None and op in ("count", "index"):
+                    continue  # list.count / list.index on a value of unknown static type
                 tags = tagged(hay)
                 is_name = "NAME" in tags
                 if not is_name:
@@ -1472,6 +1641,10 @@ def _scan(repo: Repo) -> list[Site]:
                     if not safe and _boundary_predicate(repo, f, norm(hay), norm(needle)):
                         safe, why = True, "raw prefix test inside a predicate that also requires the next character to be '.' or absent"
                         boundary_funcs.add(f.fq)
+                    if not safe and op == "removeprefix" and st == "bare" and len(parts) == 1:
+                        v, w = _slice_by_len(repo, f, n, needle, boundary_funcs, hay_e=hay)
+                        if v == "safe":
+                            safe, why = True, w
                     if not safe and st == "unknown":
                         sites.append(Site(f, n, op, hay, needle, True, "unknown", f"`{norm(n, 80)}`: cannot establish whether the prefix `{norm(needle, 40)}` ends with the separator '.'"))
                         continue
@@ -1494,6 +1667,10 @@ def _scan(repo: Repo) -> list[Site]:
                         sites.append(Site(f, n, op, hay, needle, True, "not-name", "replaces a non-name string"))
                         continue
                     safe = const is not None and "NAME" not in ntags
+                    repl = _const_str(n.args[1]) if len(n.args) > 1 else None
+                    if safe and const != "." and repl is not None and "." in repl:
+                        sites.append(Site(f, n, op, hay, needle, True, "unsafe", f"`{norm(n, 80)}`: {const!r} inside a module name is turned into the separator - different names become one", "separator"))
+                        continue
                     why = "replaces a constant" if safe else f"`{norm(n, 80)}`: str.replace substitutes every occurrence of one module name inside another, not a leading run of whole components"
                 sites.append(Site(f, n, op, hay, needle, True, "safe" if safe else "unsafe", why, group))
             # ---- joining components
@@ -1517,8 +1694,40 @@ def _scan(repo: Repo) -> list[Site]:
                 else:
                     verdict, why = "unsafe", f"`{norm(n, 80)}`: the components of a module name are joined with {sep!r}, not with the separator '.'"
                 sites.append(Site(f, n, "join", n.args[0], n.func.value, True, verdict, why, "separator"))
-            # ---- component-wise comparison through zip
+            # ---- a bound str method handed to map / filter / any: `any(map(name.startswith, prefixes))`
+            elif isinstance(n, ast.Call) and isinstance(n.func, ast.Name) and n.func.id in ("map", "filter") and len(n.args) == 2 and isinstance(n.args[0], ast.Attribute) and n.args[0].attr in ("startswith", "endswith", "find", "__contains__"):
+                hay = n.args[0].value
+                if _is_str(T, f, hay) is False or "NAME" not in tagged(hay):
+                    continue
+                needle = ast.Starred(value=n.args[1], ctx=ast.Load())
+                st = dot_status(repo, f, needle)
+                if st == "unknown":
+                    tg = tagged(n.args[1])
+                    st = "bare" if "DOT" not in tg and "NAME" in tg else "unknown"
+                op = n.args[0].attr
+                if op == "startswith" and st == "dot":
+                    sites.append(Site(f, n, op, hay, n.args[1], True, "safe", "every prefix ends in '.' (whole dotted components)"))
+                elif op == "startswith" and st == "unknown":
+                    sites.append(Site(f, n, op, hay, n.args[1], True, "unknown", f"`{norm(n, 80)}`: cannot establish whether the prefixes end with the separator '.'"))
+                else:
+                    sites.append(Site(f, n, op, hay, n.args[1], True, "unsafe", f"`{norm(n, 80)}`: raw string {op} test on a module name, applied through the bound method"))
+            # ---- library functions that compare names character by character
+            elif isinstance(n, ast.Call) and (repo.resolve_name(f.module, n.func) or "") in ("os.path.commonprefix", "posixpath.commonprefix", "fnmatch.fnmatch", "fnmatch.fnmatchcase", "fnmatch.filter") and n.args:
+                fq = repo.resolve_name(f.module, n.func)
+                if fq.endswith("commonprefix"):
+                    if "NAME" in tagged(n.args[0]):
+                        sites.append(Site(f, n, "commonprefix", n.args[0], None, True, "unsafe", f"`{norm(n, 80)}`: commonprefix compares character by character - the common prefix of 'pkg.ab' and 'pkg.a' is 'pkg.a'"))
+                elif len(n.args) >= 2:
+                    pat = _expand(repo, f, n.args[1])
+                    if "NAME" in tagged(n.args[1]) and "NAME" in tagged(n.args[0]):
+                        tail = pat.values[-1] if isinstance(pat, ast.JoinedStr) and pat.values else (pat.right if isinstance(pat, ast.BinOp) and isinstance(pat.op, ast.Add) else None)
+                        ok = (_const_str(tail) or "").startswith(".") if tail is not None else False
+                        sites.append(Site(f, n, "fnmatch", n.args[0], n.args[1], True, "safe" if ok else "unsafe", "glob pattern continues with the separator after the name" if ok else f"`{norm(n, 80)}`: a glob pattern is built from a module name without a component boundary (and its metacharacters are not escaped)"))
+            # ---- comparison of two names through zip: character by character, or component-wise
             elif isinstance(n, ast.Call) and isinstance(n.func, ast.Name) and n.func.id == "zip" and len(n.args) == 2 and _zip_in_all(n):
+                if all("NAME" in tagged(a) and "PARTS" not in tagged(a) and _is_str(T, f, a) is True for a in n.args):
+                    sites.append(Site(f, n, "zip-characters", n.args[0], n.args[1], True, "unsafe", f"`{norm(n, 80)}`: two module names are compared character by character up to the length of the shorter one - a raw string prefix test"))
+                    continue
                 if not all("PARTS" in tagged(a) for a in n.args):
                     continue
                 strict = any(k.arg == "strict" and isinstance(k.value, ast.Constant) and k.value.value is True for k in n.keywords)
@@ -1554,6 +1763,8 @@ def _scan(repo: Repo) -> list[Site]:
                         sites.append(Site(f, n, "in", hay, needle, True, "safe" if ok else "not-name", "tests for the separator only" if ok else f"constant {needle.value!r} searched in a name: a lexical test, not a relation between two module names", "separator" if ok else "relation"))
                     elif "NAME" not in tags and _is_str(T, f, needle) is not True:
                         continue
+                    elif all(_starts_with_dot(x) and dot_status(repo, f, x) == "dot" for x in (_expand(repo, f, needle), _expand(repo, f, hay))):
+                        sites.append(Site(f, n, "in", hay, needle, True, "safe", "both strings are enclosed in separators: a run of whole components is searched"))
                     else:
                         sites.append(Site(f, n, "in", hay, needle, True, "unsafe", f"`{norm(n, 80)}`: substring test between strings where a module name is involved ('pkg.a' in 'pkg.ab.c' is true)"))
                 else:
@@ -1590,21 +1801,24 @@ def _scan(repo: Repo) -> list[Site]:
                 if s is False:
                     continue
                 bounds = [(n.slice.lower, False), (n.slice.upper, True)]
-                by_len = next((c for b, _u in bounds for c in [_len_bound(repo, f, b)] if c is not None), None)
+                as_test = _slice_as_prefix_test(repo, f, n)
+                if as_test is not None:
+                    sites.append(Site(f, n, "slice-compare", n.value, parent(n), True, as_test[0], as_test[1]))
+                    continue
+                hay_t = norm(n.value)
+                by_len = next((c for b, _u in bounds for c in [_len_bound(repo, f, b, hay_t)] if c is not None), None)
                 if by_len is not None:
-                    other_e = by_len.args[0] if by_len.args else None
-                    if other_e is None or _is_str(T, f, other_e) is False:
+                    other_e = by_len.args[0]
+                    if _is_str(T, f, other_e) is False:
                         continue  # length of a component list, not of a string
-                    if norm(other_e) == norm(n.value):
-                        continue  # relative to the own length
                     verdict, why = _slice_by_len(repo, f, n, other_e, boundary_funcs)
                     sites.append(Site(f, n, "slice-by-len", n.value, by_len, True, verdict, why))
                     continue
                 if s is not True or "PARTS" in tagged(n.value):
                     continue
                 for b, is_upper in bounds:
-                    if b is None:
-                        continue
+                    if b is None or _len_calls(repo, f, b):
+                        continue  # (a bound relative to the own length: a cut counted from the end, see the other bound)
                     try:
                         ast.literal_eval(b)
                         continue  # constant bound
@@ -1623,6 +1837,8 @@ def _scan(repo: Repo) -> list[Site]:
                     tgt = n.target
                 if not isinstance(tgt, ast.Name) or "NAME" not in tagged(it) or _is_str(T, f, it) is not True:
                     continue
+                if isinstance(n, (ast.For, ast.AsyncFor)):
+                    sites.extend(_char_prefix_sites(repo, f, n, tgt.id, it))
                 for c in own_nodes(f.node):
                     if isinstance(c, ast.Compare) and len(c.ops) == 1 and any(isinstance(x, ast.Name) and x.id == tgt.id for x in (c.left, c.comparators[0])):
                         other = c.comparators[0] if isinstance(c.left, ast.Name) and c.left.id == tgt.id else c.left
@@ -1665,7 +1881,7 @@ def fixture_selfcheck() -> str:
         defs = [n for c in [tree, *[c for c in tree.body if isinstance(c, ast.ClassDef)]] for n in c.body if isinstance(n, ast.FunctionDef)]
         want_unsafe = [n.name for n in defs if n.name.startswith("unsafe_")]
         want_safe = [n.name for n in defs if n.name.startswith("safe_") or n.name.startswith("_safe_")]
-        bad = [n for n in want_unsafe if "unsafe" not in by_fn.get(n, set())] + [n for n in want_safe if by_fn.get(n, set()) - {"safe", "not-name", "reviewed"}]
+        bad = [n for n in want_unsafe if "unsafe" not in by_fn.get(n, set())] + [n for n in want_safe if by_fn.get(n, set()) - {"safe", "not-name", "reviewed"} or not by_fn.get(n)]
         if bad:
             raise AnalysisError(f"F-NAME fixture: idioms not classified as expected: {bad} (got { {k: sorted(v) for k, v in by_fn.items() if k in bad} })")
         return f"{len(want_unsafe)} unsafe and {len(want_safe)} safe idioms of engine/fixtures/name_ops.py classified as expected"
